@@ -40,7 +40,15 @@ func genRepl(ch *simrt.Chooser, thorough bool) []replAct {
 	}
 	plan := []replAct{{Kind: "append", N: 1 + ch.Choose(simrt.SWork, 4)}, {Kind: "ae", N: 1 + ch.Choose(simrt.SWork, 4)}}
 	for i := 0; i < n; i++ {
-		switch k := ch.Choose(simrt.SWork, 20); {
+		switch k := ch.Choose(simrt.SWork, 21); {
+		case k == 20:
+			// a follower with an uncommitted suffix of an old term is caught up by a snapshot that ends inside
+			// that suffix: the entries reach the follower uncommitted, the next leader does not have them, writes
+			// and commits as many or fewer of its own, compacts, and has to send its snapshot
+			s := 2 + ch.Choose(simrt.SWork, 4)
+			plan = append(plan, replAct{Kind: "append", N: s}, replAct{Kind: "ae", N: 8}, replAct{Kind: "ae", N: 8},
+				replAct{Kind: "newleader", N: 0, A: 1 + ch.Choose(simrt.SWork, 2)}, replAct{Kind: "append", N: ch.Choose(simrt.SWork, s)},
+				replAct{Kind: "commit", N: 1 << 20}, replAct{Kind: "lsnap", N: ch.Choose(simrt.SWork, 2)}, replAct{Kind: "ae", N: 4}, replAct{Kind: "ae", N: 4})
 		case k < 5:
 			plan = append(plan, replAct{Kind: "append", N: 1 + ch.Choose(simrt.SWork, 5)})
 		case k < 10:
